@@ -410,4 +410,79 @@ example :
       = observe (csvFinish cfg) (csvFeed cfg (csvInit 0) [97, 44, 34, 98, 34, 34, 99, 34, 13, 10, 100, 44, 101]) :=
   csv_chunking_independent _ _ _ _ rfl (by simp [NoBom, csvBom])
 
+/-! ## Avro streaming `Decoder`: decode / flush state machine -/
+
+/-- everything the caller receives: the batches flushed along the way and the final `flush()`,
+as (schema, row) pairs in order -/
+def avDelivered {R : Type} (cfg : AvCfg R) (st : (AvState R × Bytes) × List (Nat × List R)) : List (Nat × R) :=
+  avTagged (st.2 ++ (avFlush cfg st.1.1).2)
+
+/-
+FULL STATEMENT (not proved): for every list of well-formed frames, every chunking of the
+concatenated bytes whose cuts fall at frame boundaries or inside frame prefixes (row bodies are
+atomic in the model, so that is the chunk grammar it speaks about; several frames per chunk and
+empty chunks included) and every flush policy, `avDelivered` and the final verdict equal those of
+the reference schedule (one frame per call, flush after each).
+PROVED BELOW: the case of frame-aligned chunks (exactly one frame per `decode` call) under
+*every* flush policy, for every batch size ≥ 1 and every sequence of schema switches.
+MISSING: chunks holding several frames or a cut inside a prefix — needs the loop invariant of
+`avPush` for a buffer that still holds unconsumed bytes after the forced flush (the recursion of
+`avPush` is handled here only for the one-frame buffer) and prefix-stability hypotheses on `pfx`.
+These chunkings are covered by the correspondence run (op `avrod`) only.
+-/
+
+/-- **Flush-policy independence for frame-aligned chunks (partial).** Feeding well-formed frames
+one per `decode` call, the caller may flush after any subset of the calls (`flags`) — only when
+the decoder demands it, after every frame, every k-th frame … — and always receives exactly the
+rows of the frames, in order, each under the schema its frame announced; the decoder ends
+without error and with an empty rolling buffer.  In particular a frame that switches the schema
+while rows of the previous schema are buffered (forced flush, pending schema, awaited body) loses
+and reorders nothing.  Hence any two flush policies, and the reference policy "flush after each
+frame", deliver the same (row, schema) sequence. -/
+theorem avrod_frame_aligned_flush_independent_partial {R : Type} (cfg : AvCfg R) (hbs : 0 < cfg.batchSize)
+    (fuel : Nat) (frames : List (Bytes × Bytes × Nat × R)) (flags flags' : List Bool)
+    (hl : flags.length = frames.length) (hl' : flags'.length = frames.length)
+    (hf : ∀ f ∈ frames, AvFrame cfg f.1 f.2.1 f.2.2.1 f.2.2.2) :
+    let chunks := frames.map (fun f => f.1 ++ f.2.1)
+    let run := fun fl => avSchedule cfg fuel ((avInit cfg, []), []) (chunks.zip fl)
+    avDelivered cfg (run flags) = frames.map (fun f => (f.2.2.1, f.2.2.2)) ∧
+    avDelivered cfg (run flags) = avDelivered cfg (run flags') ∧
+    (run flags).1.1.err = false ∧ (run flags).1.2 = [] := by
+  have hinit : AvClean cfg (avInit cfg) :=
+    ⟨rfl, rfl, rfl, hbs, Nat.le_refl _, by simp [avInit], fun _ => rfl⟩
+  have key : ∀ fl : List Bool, fl.length = frames.length →
+      avDelivered cfg (avSchedule cfg fuel ((avInit cfg, []), []) ((frames.map (fun f => f.1 ++ f.2.1)).zip fl)) =
+        frames.map (fun f => (f.2.2.1, f.2.2.2)) ∧
+      (avSchedule cfg fuel ((avInit cfg, []), []) ((frames.map (fun f => f.1 ++ f.2.1)).zip fl)).1.1.err = false ∧
+      (avSchedule cfg fuel ((avInit cfg, []), []) ((frames.map (fun f => f.1 ++ f.2.1)).zip fl)).1.2 = [] := by
+    intro fl hfl
+    obtain ⟨s', out, h, hc, ht⟩ := avSchedule_frames cfg fuel frames fl hfl hf (avInit cfg) [] hinit
+    rw [h]
+    have hfin := avFlush_clean cfg s' hc
+    refine ⟨?_, hc.noErr, rfl⟩
+    simp only [avDelivered, List.nil_append]
+    have : avTagged (out ++ (avFlush cfg s').2) = avTagged out ++ avTagged (avFlush cfg s').2 := by simp [avTagged]
+    rw [this, hfin.1, ht]
+    simp [avBuffered, avInit]
+  intro chunks run
+  exact ⟨(key flags hl).1, (key flags hl).1.trans (key flags' hl').1.symm, (key flags hl).2.1, (key flags hl).2.2⟩
+
+/-- non-vacuity: a toy framing (prefix `[1, schema]`, one-byte rows), batch size 2, the frame
+sequence A,A,B,A — a switch with rows buffered and one with an empty batch — and two policies -/
+example :
+    let cfg : AvCfg Nat := ⟨2,
+      fun d => match d with | 1 :: fp :: _ => .found fp 2 | [] => .needMore | [1] => .needMore | _ => .mismatch,
+      fun fp => fp < 2,
+      fun _ d => match d with | [] => .incomplete | b :: _ => .ok 1 b,
+      fun _ => true⟩
+    let frames : List (Bytes × Bytes × Nat × Nat) := [([1, 0], [7], 0, 7), ([1, 0], [8], 0, 8), ([1, 1], [9], 1, 9), ([1, 0], [5], 0, 5)]
+    avDelivered cfg (avSchedule cfg 3 ((avInit cfg, []), []) ((frames.map (fun f => f.1 ++ f.2.1)).zip [false, false, false, false]))
+      = [(0, 7), (0, 8), (1, 9), (0, 5)] := by
+  intro cfg frames
+  exact (avrod_frame_aligned_flush_independent_partial cfg (by decide) 3 frames [false, false, false, false]
+    [true, true, true, true] rfl rfl (by
+      intro f hf
+      simp only [frames, List.mem_cons, List.not_mem_nil, or_false] at hf
+      rcases hf with rfl | rfl | rfl | rfl <;> exact ⟨fun _ => rfl, rfl, rfl, rfl, by simp, by simp⟩)).1
+
 end ArrowModel.C14
